@@ -497,6 +497,21 @@ def try_document(path) -> tuple[str, str]:
             return classify(e)
 
 
+def _payload_flip(b: bytes, r: int, n: int) -> bytes:
+    import random
+    try:
+        raw = bytearray(U.raw_stream(b))
+    except Exception:  # noqa: BLE001
+        return b
+    if not raw:
+        return b
+    rr = random.Random(r * 7919 + len(raw))
+    for _ in range(n):
+        raw[rr.randrange(min(len(raw), 4000))] ^= 1 << rr.randrange(8)
+    pieces = [bytes(raw[i:i + 65536]) for i in range(0, len(raw), 65536)]
+    return U.frame_pieces(pieces, "c" * len(pieces))
+
+
 MEMBER_MUT = {
     "empty": lambda b, r: b"",
     "1byte": lambda b, r: b[:1],
@@ -511,6 +526,10 @@ MEMBER_MUT = {
     "marker": lambda b, r: b"\x01" + b[1:],
     "len+1": lambda b, r: b[:1] + struct.pack("<I", (b[1] | b[2] << 8 | b[3] << 16) + 1)[:3] + b[4:] if len(b) >= 4 else b,
     "garbage": lambda b, r: b[:4] + bytes((i * 37 + r) & 0xFF for i in range(max(0, len(b) - 4))),
+    # a bit flipped INSIDE the archive stream, re-framed and re-compressed correctly: the container is intact, what it
+    # carries is not (wrong message types, broken references, undecodable messages)
+    "payload-flip": lambda b, r: _payload_flip(b, r, 1),
+    "payload-flip3": lambda b, r: _payload_flip(b, r, 3),
     "no-infos": lambda b, r: U.frame_pieces([U.make_segment(5, [])], "c"),
     "bad-varint": lambda b, r: U.frame_pieces([b"\xff" * 11], "c"),
 }
@@ -596,6 +615,27 @@ def materialise(case, tmp: Path) -> Path:
                 p.write_bytes(b"\x00\x01")
         elif what == "no-metadata":
             shutil.rmtree(dst / "Metadata")
+        return dst
+    if kind == "semantic":   # the container decodes; one identifier inside an archive no longer matches its counterpart
+        _, _, what = case
+        from numbers_parser.iwafile import IWAFile
+
+        def mutate(n, b):
+            if b is None or not n.endswith("CalculationEngine.iwa") and "CalculationEngine-" not in n:
+                return b
+            try:
+                iwa = IWAFile.from_buffer(b)
+                for a in iwa.chunks[0].archives:
+                    o = a.objects[0]
+                    if type(o).__name__ == "FormulaOwnerDependenciesArchive" and what == "owner-uid":
+                        o.formula_owner_uid.lower ^= 1
+                    if type(o).__name__ == "CalculationEngineArchive" and what == "owner-map":
+                        for e in o.dependency_tracker.owner_id_map.map_entry:
+                            e.owner_id.lower ^= 1
+                return iwa.to_buffer()
+            except Exception:  # noqa: BLE001
+                return b
+        rebuild_zip(str(fx), dst, mutate)
         return dst
     if kind == "pkg-os":   # a package folder whose parts exist as names but fail at the OS level when read
         _, _, what = case
@@ -707,6 +747,9 @@ def glue_cases(ctx: Ctx, nflips: int):
             muts = list(MEMBER_MUT) if (fxn == zips[0] and (not ctx.quick or t in iwas[:4])) else rng.sample(list(MEMBER_MUT), 4)
             for mu in muts:
                 cases.append(["member", fxn, t, mu, rng.randrange(256)])
+        for t in (iwas if fxn in zips[:2] else targets):
+            for rr_ in range(3 if ctx.quick else 12):
+                cases.append(["member", fxn, t, rng.choice(["payload-flip", "payload-flip3"]), rng.randrange(10 ** 6)])
         cases += [["drop-iwa", fxn], ["iwph", fxn]]
         for which in ("garbage", "empty", "list", "nokey", "intversion", "binary-cut"):
             cases.append(["plist", fxn, which, 0])
@@ -716,6 +759,9 @@ def glue_cases(ctx: Ctx, nflips: int):
                 cases.append(["pkg", fxn, what, r + (rng.randrange(1000) if what == "index-flip" else 0)])
     for hx in ("", "00", "504b0506" + "00" * 18, "504b0304", "ff" * 64, "504b0102" + "00" * 60):
         cases.append(["foreign", "", hx])
+    for fxn in zips[:4]:
+        for what in ("owner-uid", "owner-map"):
+            cases.append(["semantic", fxn, what])
     for fxn in ("test-7.numbers", "test-5.numbers"):
         for what in ("index-dangling-symlink", "index-is-directory", "plist-is-directory", "plist-dangling-symlink", "iwa-is-directory"):
             cases.append(["pkg-os", fxn, what])
